@@ -68,8 +68,15 @@ func run(r *ev.Run) {
 	r.Rule("Wide scenarios: n = 1200 (thorough 6000) DISCOVERs / SOLICITs of n different clients, pool with room for all, handled (a) one at a time and (b) all in flight at once (round-robin schedule, one statement each in turn, under the cooperative scheduler): the number of replies, of answered transactions and of distinct addresses/prefixes must be equal, and the per-reply and state oracles hold.")
 	RunSpecs(r, "C16", nil)
 	RunWide(r, "C16")
+	refreshDeadlock(r, "C16")
 	racePass(r)
 }
+
+// refreshDeadlock is wired in cmd/mc (the static-lease check owns the real-watcher runs).
+var refreshDeadlock = func(r *ev.Run, id string) {}
+
+// SetRefreshDeadlock installs it.
+func SetRefreshDeadlock(f func(*ev.Run, string)) { refreshDeadlock = f }
 
 // WideSizes are the numbers of simultaneously in-flight datagrams of the wide scenarios.
 func WideSizes(thorough bool) []int {
